@@ -200,6 +200,10 @@ def verify_case(con: C.Contract, case: C.Case, timeout_ms=10000) -> CaseReport:
         a["backend"] = sorted(a["backend"])
         rep.obligations.append(a)
     rep.covered = compared[0] > 0
+    if getattr(case, "loop_only", None):
+        # a function whose loop never exits (`while True:` of a coroutine): no path reaches a return; the case is
+        # covered when the named loop obligation was generated on at least one path
+        rep.covered = any(a["oid"].endswith(case.loop_only) for a in agg.values())
     if rep.status not in ("error",):
         if any(a["status"] == "refuted" for a in agg.values()):
             rep.status = "refuted"
